@@ -62,10 +62,15 @@ fn parse_default_value(
 fn parse_type(pair: Pair<Rule>, pc: &mut PositionCalculator) -> Result<Positioned<Type>> {
     debug_assert_eq!(pair.as_rule(), Rule::type_);
 
-    Ok(Positioned::new(
-        Type::new(pair.as_str()).unwrap(),
-        pc.step(&pair),
-    ))
+    let pos = pc.step(&pair);
+    let nullable = !pair.as_str().ends_with('!');
+    let inner = exactly_one(pair.into_inner());
+    let base = match inner.as_rule() {
+        Rule::name => BaseType::Named(parse_name(inner, pc)?.node),
+        Rule::type_ => BaseType::List(Box::new(parse_type(inner, pc)?.node)),
+        _ => unreachable!(),
+    };
+    Ok(Positioned::new(Type { base, nullable }, pos))
 }
 
 fn parse_const_value(
